@@ -150,9 +150,30 @@ def gen_feature_program(rng):
     return "riscv64", lines
 
 
+def gen_align_program(rng, pools):
+    """the same alignment requested twice with nothing but labels and plain Rust statements in between: a Rust statement may emit code
+    through the assembler, so the second request is NOT redundant and must reach the generated code joined exactly as split"""
+    arch = rng.choice(["x64", "aarch64", "riscv64"])
+    const, _ = pools[arch]
+    lines = []
+    for _ in range(rng.range(0, 2)):
+        lines.append(rng.choice(const))
+    for _ in range(rng.range(1, 3)):
+        n = rng.choice([2, 4, 8, 16])
+        lines.append(([], f".align {n}"))
+        for _ in range(rng.range(1, 3)):
+            lines.append(([], rng.choice([f"; let off{rng.below(9)} = ops.offset()", "; emit_template(ops)", f"l{rng.below(3)}:", "; ops.push(0x90)"])))
+        lines.append(([], f".align {n}"))
+        if rng.below(2):
+            lines.append(rng.choice(const))
+    return arch, lines
+
+
 def gen_program(rng, pools):
     if rng.below(10) == 0:
         return gen_feature_program(rng)
+    if rng.below(12) == 0:
+        return gen_align_program(rng, pools)
     arch = rng.choice(["x64", "x64", "aarch64", "riscv64"])
     const, dyn = pools[arch]
     lines = []
